@@ -43,8 +43,13 @@ func c05Decls(rt *rapid.T, pool *gen.Pool) []*refmodel.Decl {
 			{Kind: refmodel.KAddress, Name: "who", Indexed: rapid.Bool().Draw(rt, "whoidx"), Column: "who"},
 			{Kind: refmodel.KUint, Bits: 256, Name: "n", Column: "n"}}}
 		d := &refmodel.Decl{Name: name, Enabled: true, Table: name, Event: ev, Filters: map[*refmodel.Type]*refmodel.Filter{}}
-		d.Columns = []refmodel.Column{{Name: "who", Type: "bytea"}, {Name: "n", Type: "numeric"}, col("block_time")}
-		d.Block = []refmodel.BlockField{bf("block_time")}
+		d.Columns = []refmodel.Column{{Name: "who", Type: "bytea"}, {Name: "n", Type: "numeric"}}
+		if rapid.Bool().Draw(rt, "refheaders") {
+			d.Columns = append(d.Columns, col("block_time"))
+			d.Block = []refmodel.BlockField{bf("block_time")}
+		}
+		// (without block_time the plan is logs only: a position whose last block has no matching
+		// log is recorded without a hash)
 		return d
 	}
 	refCol := func(d *refmodel.Decl) string {
